@@ -680,3 +680,53 @@ func sBootstrapGuard(c *Ctx, rule string) {
 		}
 	}
 }
+
+// ---------------------------------------------------------------------------
+// S-CFGCLONE: the copy of the configuration tracker handed to other
+// goroutines (snapshots, GetConfiguration) is field-wise faithful.
+// ---------------------------------------------------------------------------
+
+func sConfigClone(c *Ctx, rule string) {
+	fn := c.Fn(rule, "(*configurations).Clone")
+	if fn == nil {
+		return
+	}
+	want := map[string]string{
+		"committed":      "recv.committed.Clone()",
+		"committedIndex": "recv.committedIndex",
+		"latest":         "recv.latest.Clone()",
+		"latestIndex":    "recv.latestIndex",
+	}
+	got := map[string]string{}
+	for f := range want {
+		fv := c.P.LookupField("configurations", f)
+		if fv == nil {
+			c.Bad(rule, "anchor:configurations."+f, "-", "field exists", "not found")
+			continue
+		}
+		for _, w := range c.P.FieldWritesIn(fn, fv) {
+			v, _ := c.P.StoredValue(w.Instr, fv)
+			got[f] = c.P.D(v)
+		}
+	}
+	for _, f := range []string{"committed", "committedIndex", "latest", "latestIndex"} {
+		c.Check(rule, "configurations.Clone:"+f, c.P.Pos(fn.Pos()), "the copy's "+f+" is the original's "+f+" (deep-copied for the two configurations)", got[f] == want[f], "copy."+f+" = "+got[f], 1)
+	}
+	// the three loops answer configuration requests with such a copy
+	for _, name := range []string{"(*Raft).runFollower", "(*Raft).runCandidate", "(*Raft).leaderLoop"} {
+		lf := c.P.Fn(name)
+		cf := c.P.LookupField("configurationsFuture", "configurations")
+		if lf == nil || cf == nil {
+			continue
+		}
+		n := 0
+		for _, w := range c.P.FieldWritesIn(lf, cf) {
+			v, _ := c.P.StoredValue(w.Instr, cf)
+			n++
+			c.Check(rule, name+":configurations-future-filled-from-tracker", c.P.InstrPos(w.Instr), "a configurations request is answered with r.configurations.Clone()", c.P.D(v) == "recv.configurations.Clone()", "= "+c.P.D(v), 1)
+		}
+		if n == 0 {
+			c.Bad(rule, name+":configurations-future-filled-from-tracker", c.P.Pos(lf.Pos()), "the loop fills the configurations future", "no store")
+		}
+	}
+}
